@@ -195,6 +195,9 @@ theorem timeOk_cancel {q : EvQ} (hq : TimeOk q) (h : Nat) : TimeOk (cancel q h).
     Same w (cancelKindFor w p act sig).1 :=
   foldl_same _ (fun w h => evCancel_same w h) _ w
 
+@[simp] theorem cancelUserAll_same (w : World) : Same w (cancelUserAll w).1 :=
+  foldl_same _ (fun w h => evCancel_same w h) _ w
+
 /-! ### guards -/
 
 @[simp] theorem setGuardQ_same (w : World) (g : Nat) (q : HH) : Same w (setGuardQ w g q) :=
